@@ -248,3 +248,23 @@ PROPS["C13"] = dict(
                guard={"quick": 900, "thorough": 7200})],
     min_class_fraction={"replace_depth_10plus": 0.03, "nested_storage_wrappers": 0.3, "more_than_20_keys": 0.05},
 )
+
+
+PROPS["C09"] = dict(
+    pkg="c09",
+    rule=("histories of 2..12 (thorough: ..30) operations over a pool of <=8 handles holding real implementation values. Initial handles are "
+          "produced by the implementation (list literals, lists with spare capacity built by append, lazily produced lists, concatenations, "
+          "evaluated lists, map literals, put chains). Steps derive a new handle from existing ones through compiled one-operation functions "
+          "that are reused across steps (append of an int or of another handle, set, reverse, order, +, top, skip, map, accept, eval, "
+          "combineN(n,l->l) with and without eval, iir building lists by append, number, put, replace, map +, map eval, list(), map map) or "
+          "consume one (first, size, sum); a third of the steps derives again from the parent of the previous step (branching). Oracle: a "
+          "purely functional model (the reference library); after EVERY step EVERY live handle must still have the model's element "
+          "sequence / key-value set, size(), string() and be = to a freshly built literal of the model in both operand orders. In a third "
+          "of the cases the whole history is rendered as ONE program of lets (constant-folded parents, compile-time appends) and evaluated "
+          "three times. Non-trivial: two derivations from the same parent followed by observation of all handles; distinct = initial "
+          "values + step sequence."),
+    assumptions=["values whose order is documented as unspecified (evaluated maps and what is listed from them) are compared as sets and not used for order-sensitive derivations"],
+    jobs=[dict(name="c09", run="^TestPropC09$", kind="rapid", shards=16, checks={"quick": 60000, "thorough": 1500000},
+               guard={"quick": 900, "thorough": 7200})],
+    min_class_fraction={"two_derivations_from_one_parent": 0.3, "history_as_one_program": 0.15, "op_combineNeval": 0.05, "op_append": 0.3},
+)
